@@ -32,6 +32,16 @@ def check(chk, sc, out):
         db[n] = ir.Series(start=start, values=np.array([math.nan if nanv(r[j]) else float(r[j]) for r in sc["data"]], dtype=float))
     span = ir.Span(start + p, start + T - 1)
     desc = "RedVAR(%s, exogenous=%s, order=%d, intercept=%s).estimate on data %s" % (ynames, xnames, p, sc["icpt"], _plain(sc["data"]))
+    priors = []
+    for pr in sc["prior"]:
+        if pr["kind"] == "minn":
+            priors.append(ir.MinnesotaPriorObs(rho=float(pr["rho"]), mu=float(pr["mu"]), kappa=float(pr["kappa"])))
+        else:
+            priors.append(ir.MeanPriorObs(mean=float(pr["mean"]), mu=float(pr["mu"])))
+    ekw = {"prior_obs": priors} if priors else {}
+    if priors:
+        tag += ":prior:" + "+".join(pr["kind"] for pr in sc["prior"])
+        desc += " with prior dummy observations %s" % (_plain(sc["prior"]),)
     try:
         kw = {"order": p}
         if xnames:
@@ -39,7 +49,7 @@ def check(chk, sc, out):
         if not sc["icpt"]:
             kw["intercept"] = False
         v = ir.RedVAR(ynames, **kw)
-        odb = v.estimate(db, span)
+        odb = v.estimate(db, span, **ekw)
         sysm = v.get_system_matrices()
     except Exception as ex:
         if not out["ok"]:        # singular normal equations: no least-squares solution to compare with
@@ -81,7 +91,7 @@ def check(chk, sc, out):
         return
     try:
         v2 = ir.RedVAR(ynames, **kw)
-        v2.estimate(db, span, dof_correction=True)
+        v2.estimate(db, span, dof_correction=True, **ekw)
         cov2 = np.asarray(v2.get_system_matrices().cov_residuals, dtype=float)
         nreg = nlag + nx + int(sc["icpt"])
         ok = any(n - d > 0 and np.allclose(cov2, S / (n - d), rtol=1e-8, atol=1e-9) for d in {nreg, nx + int(sc["icpt"])})
@@ -115,6 +125,17 @@ def check(chk, sc, out):
         if eig_got.shape != eig_exp.shape or not np.allclose(eig_got, eig_exp, rtol=1e-6, atol=1e-6):
             chk.mismatch(tag + ":eigenvalues", desc + ": eigenvalues %s, companion form of the exact coefficients has %s" % (eig_got, eig_exp), payload)
             return
+        # the largest modulus (not the largest real part) decides stability
+        mx = float(np.max(np.abs(eig_exp)))
+        gmx = float(np.ravel(v.get_max_abs_eigenvalue())[0])
+        if not abs(gmx - mx) <= 1e-6 * max(1.0, mx):
+            chk.mismatch(tag + ":max-abs-eigenvalue", desc + ": get_max_abs_eigenvalue() is %r, the largest modulus among the companion eigenvalues %s is %r" % (gmx, eig_exp, mx), payload)
+            return
+        if abs(mx - 1.0) > 1e-3:
+            st_ = np.ravel(v.get_stability())[0]
+            if bool(st_) != (mx < 1.0):
+                chk.mismatch(tag + ":stability", desc + ": get_stability() is %r but the largest modulus of the companion eigenvalues is %r" % (st_, mx), payload)
+                return
         stable = np.max(np.abs(eig_exp)) < 1 - 1e-6
         if stable and nx == 0 and sc["icpt"]:
             Asum = sum(exp[:, k * K:(k + 1) * K] for k in range(p))
@@ -191,7 +212,7 @@ def run(chk):
         n += 1
         exact += bool(st["sc"]["exact"])
         sc = st["sc"]
-        if st["out"]["ok"] and sc["icpt"] and not sc["exact"] and not any(nanv(x) for r in sc["data"] for x in r):
+        if st["out"]["ok"] and sc["icpt"] and not sc["exact"] and not len(sc["prior"]) and not any(nanv(x) for r in sc["data"] for x in r):
             groups.setdefault((sc["K"], sc["nx"], sc["p"], len(sc["data"])), {})[sc["g"]] = (sc, st["out"])
         if n in (5, 40):
             chk.sample({"scenario": _plain(st["sc"]), "spec": {k: _plain(v) for k, v in st["out"].items() if k in ("ok", "num", "den", "complete")}})
@@ -214,7 +235,7 @@ def run(chk):
                 "last periods), two noise-free data sets generated by integer VARs, one model without intercept; a case is one scenario")
     chk.assumptions = ["the degrees-of-freedom correction may subtract either all regressors per equation or the non-endogenous ones (the statement does not fix it)",
                        "eigenvalues, mean and autocovariances are compared with numpy computations on the companion form built from the spec's exact coefficients",
-                       "prior dummy observations and resampling are not covered"]
+                       "prior dummy observations: Minnesota and mean priors with integer parameters (the y_std scaling argument is not applied by irispie and not by the spec); resampling is not covered"]
 
 
 def replay(chk, s):
